@@ -140,7 +140,8 @@ SPECS = {
         title='results held exactly while a direct dependent still needs them; nothing held at return'),
 }
 
-LOG_BEH = ['L1', 'P1', 'L2 P1', 'P1 F', 'P1 F P1', 'E1', 'W1 P2', 'P2 F F', '', 'L450', 'P1 L450 E1']
+LOG_BEH = ['L1', 'P1', 'L2 P1', 'P1 F', 'P1 F P1', 'E1', 'W1 P2', 'P2 F F', '', 'L450', 'P1 L450 E1', 'Q1', 'P1 Q1', 'U1',
+           'L1 Q2 F Q1']
 
 
 def beh_logs(job, rnd):
